@@ -4,10 +4,14 @@ go 1.23
 
 require (
 	github.com/iotaledger/iota.go v1.0.0
+	golang.org/x/crypto v0.2.0
 	golang.org/x/tools v0.29.0
 )
 
-require github.com/pkg/errors v0.8.1 // indirect
+require (
+	github.com/pkg/errors v0.8.1 // indirect
+	golang.org/x/sys v0.29.0 // indirect
+)
 
 require (
 	github.com/wollac/iota-crypto-demo v0.0.0
